@@ -48,6 +48,7 @@ struct Gen {
         else if (u < 0.92) E = (uint32_t)rng.range(65, 300);
         else E = (uint32_t)rng.range(1024, 4096);
         while ((uint64_t)n * E > (thorough ? 4000000u : 400000u) && E > 4) E /= 2;
+        if (rng.chance(0.03) && n <= 120) { static const uint32_t special[] = {4095, 4096, 4097, 8192, 2048, 12288}; uint32_t s = special[rng.below(6)]; if ((uint64_t)n * s <= 700000u) E = s; }   // page-sized symbols
         (void)k;
         return E;
     }
@@ -169,8 +170,8 @@ struct Gen {
             f.N1 = g[rng.below(g.size())];
             if (f.N1 > 255) f.N1 = 255;
         } else if (fld == "seed") {
-            static const uint64_t ss[] = {0, 0, 2147483647ULL, 2147483648ULL, 4294967295ULL, 3000000000ULL};
-            f.pseed = (uint32_t)ss[rng.below(6)];
+            static const uint64_t ss[] = {0, 0, 2147483647ULL, 2147483648ULL, 4294967295ULL, 3000000000ULL, 1, 2147483646ULL, 2147483646ULL};   // incl. both ends of the valid range
+            f.pseed = (uint32_t)ss[rng.below(9)];
         }
         if ((uint64_t)f.k + f.r > 4000 && f.E > 8 && fld != "E") f.E = 1 + (uint32_t)rng.below(8);
         cnt("oti_corruptions");
@@ -183,7 +184,7 @@ struct Gen {
         for (uint32_t i = 0; i < k; i++) src[i] = i;
         for (uint32_t i = 0; i < f.r; i++) rep[i] = k + i;
         int mode = (int)rng.below(9);
-        if (is_big(f)) mode = 0;
+        if (is_big(f)) mode = (int)rng.below(5);      // no carousel / few-source schedules for large blocks (cost), every plain order is fine
         auto shuf = [&](std::vector<uint32_t> &v) { if (!v.empty()) rng.shuffle(v.data(), v.size()); };
         switch (mode) {
         case 0: all = src; all.insert(all.end(), rep.begin(), rep.end()); break;
